@@ -679,10 +679,12 @@ class UserTrackingManager:
 
     def _get_tracked_user_object(self, user: User) -> TrackedUser:
         """Gets or creates a tracked user object"""
-        if user.name in self._tracked_users:
-            tracked_user = self._tracked_users[user.name]
+        tracked_user = self._tracked_users.get(user.name)
 
-        else:
+        # The tracking task of an existing entry could have ended already while
+        # its done callback, which removes the entry, did not run yet. A request
+        # put on the queue of such an entry would never be handled
+        if tracked_user is None or (tracked_user.task is not None and tracked_user.task.done()):
             tracked_user = TrackedUser(user)
             tracked_user.task = asyncio.create_task(
                 self._tracking_task(tracked_user))
@@ -707,7 +709,9 @@ class UserTrackingManager:
             )
 
         finally:
-            self._tracked_users.pop(tracked_user.user.name, None)
+            # Only remove the entry if it wasn't replaced in the meantime
+            if self._tracked_users.get(tracked_user.user.name) is tracked_user:
+                self._tracked_users.pop(tracked_user.user.name, None)
 
     async def _on_state_changed(self, event: ConnectionStateChangedEvent):
         if not isinstance(event.connection, ServerConnection):
